@@ -50,7 +50,7 @@ def CpEv.doneOrig? : CpEv → Option Nat
   | .done o _ _ _ => some o
   | _ => none
 
-/-- the `Send` of this event failed and its error was ignored -/
+/-- the `Send` of this event failed and its error was ignored (possible only before the repair) -/
 def CpEv.dropped : CpEv → Bool
   | .flushDone _ false => true
   | .fwd _ _ _ false => true
@@ -90,13 +90,9 @@ def specRun (n : Nat) : FlushSpec → List CpEv → Option FlushSpec
 def reachCp (nCaches capIn capDrv capDma capCache : Nat) (ops : List CpOp) : CpEnv :=
   (CpEnv.init nCaches capIn capDrv capDma capCache).run ops
 
-/-- every tick of the run starts with room for what one tick can send (at most 6 answers to the
-    driver, at most 2 clones to the DMA engine) -/
-def CpEnv.roomy (e : CpEnv) : List CpOp → Prop
-  | [] => True
-  | op :: rest =>
-    (op = .tick → e.s.drvOut.length + 6 ≤ e.s.capDrv ∧ e.s.dmaOut.length + 2 ≤ e.s.capDma) ∧
-    (e.step op).1.roomy rest
+/-- the same for the code before the repair (`Send` errors ignored) -/
+def reachCpOld (nCaches capIn capDrv capDma capCache : Nat) (ops : List CpOp) : CpEnv :=
+  (CpEnv.init nCaches capIn capDrv capDma capCache).runOld ops
 
 /-- nothing in flight anywhere: all port buffers empty, the DMA side and the caches hold nothing -/
 def CpEnv.quiet (e : CpEnv) : Prop :=
